@@ -105,8 +105,8 @@ def model_check(ctx, kd):
     """The state machine: safety + independence + liveness, no state constraint; then the teeth of those checks."""
     inv = ["TypeOK", "AnswerIsRecord", "BadGetsNoData", "Independence"]
     live = ["ValidAnswered", "BadServed", "NeverHeld"]
-    cfg = mc_cfg(ctx, "mc_model.cfg", "model", kd=(), conns="{1, 2, 3}", spec="MCSpec", invariants=inv, properties=live)
-    r = lib.tlc(ctx, MODULE_MC, cfg, timeout=1500, coverage=not ctx.quick)
+    cfg = mc_cfg(ctx, "mc_model.cfg", "model", kd=(), conns="{1, 2}" if ctx.quick else "{1, 2, 3}", spec="MCSpec", invariants=inv, properties=live)
+    r = lib.tlc(ctx, MODULE_MC, cfg, timeout=900, coverage=not ctx.quick)
     ctx.cov["states"] += r["distinct"]
     ctx.cov["transitions"] += r["generated"]
     if not ctx.quick:
@@ -121,7 +121,8 @@ def model_check(ctx, kd):
         props = ["NeverHeld"] if name.startswith("F15f") else (["ValidAnswered"] if want == "liveness" else [])
         cfg = mc_cfg(ctx, f"mc_model_{name}.cfg", "model", kd=kdev, arch=arch, conns=conns, spec="MCSpec", invariants=i2, properties=props)
         r = lib.tlc(ctx, MODULE_MC, cfg, timeout=900, expect_violation=True)
-        got = "Independence" if "Independence" in r["invariant_violated"] else ("liveness" if r["property_violated"] else "none")
+        live_bad = r["property_violated"] or re.search(r"Temporal propert(y|ies) .*violated", r["text"]) is not None
+        got = "Independence" if "Independence" in r["invariant_violated"] else ("liveness" if live_bad else "none")
         teeth[name] = {"expected": want, "violated": got}
     ctx.cov["model_teeth"] = teeth
     ctx.stage("mc-teeth", **{k: v["violated"] for k, v in teeth.items()})
@@ -173,7 +174,7 @@ def program_of(evs):
 
 def judge_trace(ctx, trace, source, kd, classify=True):
     cfg = t_cfg(ctx, kd)
-    v = lib.judge(ctx, MODULE_T, cfg, trace, max_events=12000)
+    v = lib.judge(ctx, MODULE_T, cfg, trace, max_events=2500)
     v["violations"] = sorted(set(v["violations"]))
     ctx.stage("judge", source=source, events=v["events"], queries=v.get("queries"), rows=v.get("rows"),
               violations=len(v["violations"]), deviations=len(v["deviations"]), wall_s=v["wall_s"])
